@@ -21,6 +21,7 @@ type CtxScenario struct {
 	Pre     []int   `json:"pre"`                 // inputs cancelled before construction
 	Bg      []int   `json:"bg,omitempty"`        // inputs that can never be cancelled (values on context.Background())
 	PreDL   bool    `json:"predl,omitempty"`     // the inputs of Pre are done by an expired deadline instead of a cancel
+	DL      []int   `json:"dl,omitempty"`        // per input: 0 no deadline, k > 0 a deadline k hours away (never reached)
 	Nils    []int   `json:"nils"`                // combine: others that are nil
 	Steps   [][]int `json:"steps"`               // each step cancels these inputs at once (through one common parent); -1 = the returned cancel func
 	Race    bool    `json:"race,omitempty"`      // the first two steps (or construction and the first step) run concurrently
@@ -160,6 +161,13 @@ func genCtxScenario(rng *rand.Rand, profile, mode string) any {
 		}
 	}
 	sc.PreDL = rng.Intn(2) == 0
+	// some inputs carry (far away) deadlines, equal or different: who expires first must not matter for explicit cancels
+	if rng.Intn(3) == 0 {
+		sc.DL = make([]int, sc.N+1)
+		for i := range sc.DL {
+			sc.DL[i] = rng.Intn(4)
+		}
+	}
 	if sc.Pre == nil {
 		sc.Pre = []int{}
 	}
@@ -171,6 +179,7 @@ func genCtxScenario(rng *rand.Rand, profile, mode string) any {
 
 func runCtxExec(execID int, sci any, e *Env) []rec.Ev {
 	sc := sci.(*CtxScenario)
+	t0dl := time.Now()
 	e.R.Add(rec.Ev{"ev": "reset", "exec": execID, "mode": e.Mode, "kind": sc.Kind})
 	isNil := map[int]bool{}
 	for _, i := range sc.Nils {
@@ -201,6 +210,11 @@ func runCtxExec(execID int, sci any, e *Env) []rec.Ev {
 			base = parents[s]
 		}
 		ctx, c := context.WithCancel(base)
+		if i < len(sc.DL) && sc.DL[i] > 0 {
+			var c2 context.CancelFunc
+			ctx, c2 = context.WithDeadline(ctx, t0dl.Add(time.Duration(sc.DL[i])*time.Hour))
+			defer c2()
+		}
 		for _, b := range sc.Bg {
 			if b == i {
 				ctx, c = context.Background(), func() {}
